@@ -203,10 +203,13 @@ fn search_decl_references_with_ctx<'a>(
         .get_decl_index()
         .get_decl(&decl_id)?;
     if decl.is_local() {
+        // a local that is never used has no entry in the reference index: it still has its declaration
+        let no_refs = emmylua_code_analysis::DeclReference::new();
         let decl_refs = semantic_model
             .get_db()
             .get_reference_index()
-            .get_decl_references(&decl_id.file_id, &decl_id)?;
+            .get_decl_references(&decl_id.file_id, &decl_id)
+            .unwrap_or(&no_refs);
         let document = semantic_model.get_document();
         if ctx.include_declaration
             && let Some(location) = document.to_lsp_location(decl.get_range())
